@@ -12,6 +12,7 @@ import copy as copy_mod
 import inspect
 import re
 import sys
+import traceback
 import types
 
 from hypothesis import strategies as st
@@ -87,7 +88,15 @@ RULE = ('sweep: every BaseException subclass exported by builtins (69 names on 3
         '**dict, some containing {x}, {}, {0}, }, %s (direct, from an outer configurable body, '
         'or as an evaluated reference without arguments; exhaustive sweep call-fails: 2 shapes x '
         '10 name sets x 3 x scope), the reference being the TypeError Python raises for the '
-        'same call on the undecorated function. Non-trivial = '
+        'same call on the undecorated function. Nested classes: the exception class may be '
+        'defined inside a class (Outer.UExc), inside a factory function '
+        '(make_exc.<locals>.UExc) or inside one of two outer classes with an inner class of the '
+        'same name, the other one crossing a configurable first (generated; sweep nested-classes '
+        '3 x 6 class shapes x 3). Call shapes: besides body calls and `@f()` references, links '
+        'through a singleton (`k.x = @s/gin.singleton()`, `s/gin.singleton.constructor = @f`: f '
+        'is the constructor on first use) and through a macro (`M = @f()`, `k.x = %M`) '
+        '(generated; sweep call-shapes: 6 rich exceptions x 2 kinds x scoped/unscoped x 3 '
+        'positions x 2 sites). Non-trivial = '
         'the original has a public data attribute besides args, or its constructor has required '
         'arguments, or >=2 configurables are on the stack. Distinct = distinct case JSON.')
 ASSUMPTIONS = [
@@ -104,6 +113,10 @@ ASSUMPTIONS = [
     'gin.current_scope_str() occur in str(e2) after the prefix str(e); nothing else of the text '
     'is compared, further "In call to configurable" lines for outer configurables are accepted',
     'only the innermost configurable (the one whose body raised) is required to be named',
+    '"an instance of the same exception class" includes how the class presents itself: '
+    'type(e).__name__, __qualname__ and __module__ at the caller equal those of the raised class, '
+    'and the first line of traceback.format_exception_only starts as it does for the original '
+    '(Gin\'s extension begins on a new line)',
     'for a call that fails before the body runs (missing positional argument) the original is the '
     'TypeError Python raises for the same call on the undecorated function: same class, equal '
     'args, message = that message + an extension naming the configurable and the scope (Gin\'s '
@@ -189,6 +202,9 @@ FLOORS = {
     'user:unset-slot-declared-before-a-set-one': (0.03, 'user:generated'),
     'same-class-crossed-before': 0.03,
     'callfail': 0.01,
+    'link:singleton': (0.05, 'origin:gen'),
+    'link:macro': (0.05, 'origin:gen'),
+    'user:nested-or-local-class': (0.15, 'user:generated'),
     'callfail:brace-in-keyword-name': 0.004,
     'user:init-subclass-optional': (0.04, 'user:generated'),
     'user:str-needs-field': (0.04, 'user:generated'),
@@ -429,6 +445,10 @@ def _user_spec(draw):
       # __setattr__ refusing assignment (to every name / to dunder names / to other names), and
       # __init_subclass__ with a required / an optional keyword
       'setattr': draw(st.sampled_from([None] * 8 + ['all', 'dunder', 'public'] * 2)),
+      # where the class statement stands: module level, inside a class (Outer.UExc), inside a
+      # factory function (make_exc.<locals>.UExc), or inside one of two outer classes that both
+      # have an inner class of this name (Outer.UExc raised, Other.UExc crossed before)
+      'nest': draw(st.sampled_from([None] * 5 + ['class', 'factory', 'class-pair'])),
       'initsub': draw(st.sampled_from([None] * 12 + ['required'] * 2 + ['optional'] * 3 +
                                       INITSUB_REJECTING)),
   }
@@ -558,6 +578,14 @@ def render_user(spec):
     # the class's own code (and the raise site) fill the instance in behind its __setattr__
     fix = lambda l: re.sub(r"^(\s*)(self|e)\.(\w+) = (.*)$", r"\1object.__setattr__(\2, '\3', \4)", l)
     body, post = [fix(l) for l in body], [fix(l) for l in post]
+  nest = spec.get('nest')
+  if nest in ('class', 'class-pair'):
+    body = ['class Outer:'] + ['  ' + l for l in body]
+    if nest == 'class-pair':
+      body += ['class Other:', '  class UExc(Exception):', '    pass']
+    body.append('UExc = Outer.UExc')
+  elif nest == 'factory':
+    body = ['def make_exc():'] + ['  ' + l for l in body] + ['  return UExc', 'UExc = make_exc()']
   return '\n'.join(body) + '\n', ctor, post
 
 
@@ -576,6 +604,8 @@ def normalise(case):
   case['note'] = False
   for link in case['links']:
     link['scope'] = ''
+    if link['kind'] == 'singleton':     # a singleton reference is necessarily a scoped one
+      link['kind'] = 'ref'
   return case
 
 
@@ -584,7 +614,8 @@ SCOPES = ['', 'zsa', 'zsa/zsb']
 LINK_SCOPES = ['', '', 'zm']
 MUTATIONS = ['args', 'field', 'slot', 'dict', 'strstate']
 _plain_link = st.builds(lambda k, s: {'kind': k, 'scope': s},
-                        st.sampled_from(['call', 'call', 'ref']), st.sampled_from(LINK_SCOPES))
+                        st.sampled_from(['call', 'call', 'call', 'ref', 'ref', 'singleton', 'macro']),
+                        st.sampled_from(LINK_SCOPES))
 # 'catch': a call link whose body catches what comes from below, changes public state of the
 # exception object and re-raises it (bare `raise` or `raise exc`)
 _catch_link = st.builds(
@@ -620,11 +651,18 @@ SIGS = [
 KWONLY_NO_DEFAULT = {3, 7, 9}
 
 
+# link kinds in which Gin itself calls the next configurable while it evaluates a value for the
+# outer one: `k.x = @next()`; `k.x = %M` with `M = @next()`; `k.x = @sk/gin.singleton()` with
+# `sk/gin.singleton.constructor = @next` (next is then the singleton's constructor on first use)
+BY_REFERENCE = ('ref', 'singleton', 'macro')
+
+
 def eff_sig(case):
   """Index into SIGS actually used: a raiser evaluated as @f() cannot get positional-only
   arguments from Gin, so that shape falls back to the plain required parameter."""
   i = case.get('sig', 0) % len(SIGS)
-  by_ref = bool(case['links']) and case['links'][-1]['kind'] == 'ref' and case['site'] != 'method'
+  by_ref = bool(case['links']) and case['links'][-1]['kind'] in BY_REFERENCE and (
+      case['site'] != 'method')
   return 1 if (by_ref and SIGS[i][2] is None) else i
 
 
@@ -956,7 +994,54 @@ def sweep_slots(tier):
   return cases, True
 
 
-SWEEPS = {'call-fails': sweep_callfail, 'class-hooks': sweep_class_hooks, 'slots': sweep_slots,
+def sweep_nested(tier):
+  """Exception classes defined inside a class / a factory function / one of two outer classes."""
+  del tier
+  call, ref = {'kind': 'call', 'scope': ''}, {'kind': 'ref', 'scope': ''}
+  shapes = [dict(), dict(init='all', store=True, attrs=[['detail', 'some text']], str='args'),
+            dict(bases=['OSError'], slots=['sa', 'sb'], unset=['sa'], props=['slot']),
+            dict(bases=['ExceptionGroup'], group=True, new='pass', init=None),
+            dict(initsub='registry-ValueError'), dict(setattr='dunder')]
+  cases = []
+  for nest in ('class', 'factory', 'class-pair'):
+    for k, shape in enumerate(shapes):
+      for n, links in enumerate(([], [call], [ref, call])):
+        kw = dict(argv=(7,) if shape.get('group') else ('u', 3) if shape.get('init') else ())
+        kw.update(shape)
+        cases.append({'exc': plain_user_spec(nest=nest, **kw), 'site': ('fn', 'method')[n % 2],
+                      'how': ('configurable', 'register')[n % 2], 'mhow': 'register',
+                      'links': links, 'inter': 'fn', 'scope': ('', 'zsa/zsb')[(n + k) % 2],
+                      'cause': n == 1, 'twin': n == 2, 'again': n == 1, 'origin': 'sweep'})
+  return cases, True
+
+
+def sweep_call_shapes(tier):
+  """The raiser reached as a singleton constructor on first use and through a macro."""
+  del tier
+  call = {'kind': 'call', 'scope': ''}
+  excs = [{'builtin': 'OSError', 'expr': "OSError(2, 'No such thing', '/x/file')"},
+          plain_user_spec(argv=('field', 3), init='all', store=True,
+                          attrs=[['detail', {'k': 1}]], post=[['late', 'v']]),
+          plain_user_spec(['ValueError'], argv=(13,), new='pass', slots=['sa']),
+          {'builtin': 'ExceptionGroup',
+           'expr': "ExceptionGroup('eg', [ValueError(1), TypeError('t')])"},
+          {'builtin': 'StopIteration', 'expr': 'StopIteration(5)'},
+          {'builtin': 'KeyboardInterrupt', 'expr': "KeyboardInterrupt('a message')"}]
+  cases = []
+  for exc in excs:
+    for kind in ('singleton', 'macro'):
+      for scoped in ('', 'zm'):
+        link = {'kind': kind, 'scope': scoped}
+        for n, links in enumerate(([link], [call, link], [link, call])):
+          for site in ('fn', 'ctor'):
+            cases.append({'exc': exc, 'site': site, 'how': ('configurable', 'register')[n % 2],
+                          'mhow': 'register', 'links': links, 'inter': 'fn', 'sig': (0, 3, 1)[n],
+                          'scope': ('', 'zsa/zsb')[n % 2], 'cause': n == 2, 'origin': 'sweep'})
+  return cases, True
+
+
+SWEEPS = {'nested-classes': sweep_nested, 'call-shapes': sweep_call_shapes,
+          'call-fails': sweep_callfail, 'class-hooks': sweep_class_hooks, 'slots': sweep_slots,
           'builtin-classes': sweep_builtins, 'mi-ordered-pairs': sweep_mi_pairs,
           'brace-reprs': sweep_reprs, 'signatures': sweep_signatures, 'late-str': sweep_late_str}
 
@@ -970,7 +1055,7 @@ def build_chain(case):
   raise_stmt = {True: "raise e from HOLD['cause']  # RAISE", 'none': 'raise e from None  # RAISE'
                }.get(case.get('cause'), 'raise e  # RAISE')
   params, callargs, bound = SIGS[eff_sig(case)]
-  by_ref = bool(links) and links[-1]['kind'] == 'ref' and site != 'method'
+  by_ref = bool(links) and links[-1]['kind'] in BY_REFERENCE and site != 'method'
   if by_ref:
     callargs = ''
   # the raiser keeps the original object, its message and its public data as they are at the raise
@@ -1055,7 +1140,13 @@ def build_chain(case):
     else:
       ret = [f'return {viaref[i + 1]}']
       sc = link['scope'] + '/' if link['scope'] else ''
-      bindings.append(f'zq_k{i}.x = @{sc}zq_k{i + 1}()')
+      if link['kind'] == 'singleton':
+        bindings += [f'zq_k{i}.x = @zsk{i}/gin.singleton()',
+                     f'zsk{i}/gin.singleton.constructor = @{sc}zq_k{i + 1}']
+      elif link['kind'] == 'macro':
+        bindings += [f'ZM{i} = @{sc}zq_k{i + 1}()', f'zq_k{i}.x = %ZM{i}']
+      else:
+        bindings.append(f'zq_k{i}.x = @{sc}zq_k{i + 1}()')
     if case['inter'] == 'cls':
       out += [f"@gin.configurable('zq_k{i}')", f'class PyK{i}:', '  def __init__(self, x=None):']
       out += ['    ' + l.replace('return ', 'self.r = ') for l in ret]
@@ -1348,6 +1439,18 @@ def check_case(case):
         pass
       labels.add('twin:first')
 
+  if exc.get('user') and exc.get('nest') == 'class-pair' and twin_cls is None:
+    # another outer class has an inner class of the same __name__ (different __qualname__)
+    mod.HOLD['twin'] = mod.Other.UExc('the other inner class')
+    exec(compile(TWIN_SRC, PROBE_FILE + ':twin', 'exec'), mod.__dict__)  # pylint: disable=exec-used
+    try:
+      mod.pytwin()
+    except BaseException as caught:  # pylint: disable=broad-except
+      require(type(caught).__qualname__ == 'Other.UExc' and isinstance(caught, mod.Other.UExc),
+              'class-name-differs', lambda: f'Other.UExc arrived as {type(caught).__qualname__}')
+    twin_cls = mod.Other.UExc
+    labels.add('same-name-inner-class-crossed-before')
+
   # (2c) 'again': an exception of the SAME class crossed a configurable earlier in the process
   if case.get('again'):
     mod.HOLD['twin'] = sample
@@ -1503,6 +1606,21 @@ def check_case(case):
   else:
     labels.add('passthrough')
 
+  # the class presents itself under the same name: type(e).__name__/__qualname__/__module__ and
+  # the first line of traceback.format_exception_only (the Gin trailer starts on a new line)
+  for attr in ('__name__', '__qualname__', '__module__'):
+    require(getattr(type(e2), attr) == getattr(cls, attr), 'class-name-differs',
+            lambda: f'type(e).{attr}: raised {getattr(cls, attr)!r}, caught '
+                    f'{getattr(type(e2), attr)!r}\n{describe()}')
+  want_line = ''.join(traceback.format_exception_only(e)).split('\n')[0]
+  got_line = ''.join(traceback.format_exception_only(e2)).split('\n')[0]
+  # (comparable only while both objects read the same: a body that changed filename / lineno of
+  # a SyntaxError on the object it caught changed what the formatter prints for that object)
+  require(not late_message(e2)['visible'] or got_line.startswith(want_line.rstrip()),
+          'formatted-name-differs',
+          lambda: f'format_exception_only first line: original {want_line!r}, caught '
+                  f'{got_line!r}\n{describe()}')
+
   # traceback: frame and line of the original raise
   entries = tb_entries(e2.__traceback__)
   require((PROBE_FILE, code_name, raise_line) in entries, 'traceback-lost',
@@ -1567,7 +1685,7 @@ def check_case(case):
   for l in case['links']:
     if l['kind'] == 'catch':
       labels.add('catch:' + l.get('reraise', 'bare'))
-  if case['links'] and case['links'][-1]['kind'] == 'ref':
+  if case['links'] and case['links'][-1]['kind'] in BY_REFERENCE:
     labels.add('raised-while-evaluating-reference')
   if case['inter'] == 'cls' and case['links']:
     labels.add('intermediate:class')
@@ -1622,6 +1740,9 @@ def check_case(case):
       labels.add('user:class-attrs')
     if exc['str']:
       labels.add('user:custom-str')
+    if exc.get('nest'):
+      labels.add('user:nested-' + exc['nest'])
+      labels.add('user:nested-or-local-class')
     if exc.get('setattr'):
       labels.add('user:setattr-refuses-' + exc['setattr'])
     if exc.get('initsub'):
